@@ -41,3 +41,7 @@ def run(ctx):
             ('weighted_stdev', (True,)): 1, ('weighted_stdev', (False,)): 2}
     N.nan_table(ctx, 'R10.5', {'statistics', 'utils'}, 'WeightedTally', list(spec), '_n_nonzero', spec, extra_fields=['_n'],
                 pos_fields={'WeightedTally': ['_weight_times_variance', '_sum_of_weights']})
+    # all-equal observations: the weighted variance / stdev are 0, not undefined
+    N.nan_table(ctx, 'R10.5', {'statistics', 'utils'}, 'WeightedTally', list(spec), '_n_nonzero', spec, extra_fields=['_n'],
+                pos_fields={'WeightedTally': ['_sum_of_weights']}, zero_fields={'WeightedTally': ['_weight_times_variance']},
+                label_suffix=' [all observations equal]')
